@@ -83,7 +83,16 @@ impl<Read: ReadHalf> ReadConnection<Read> {
         enum ReplyMsg<ReplyParams, ReplyError> {
             Varlink(varlink_service::Error),
             Error(ReplyError),
+            // Any other message with an `error` member. Must come before `Reply`, which would
+            // otherwise accept such a message as a success with no parameters.
+            UnknownError(UnknownError),
             Reply(Reply<ReplyParams>),
+        }
+
+        #[derive(Debug, Deserialize)]
+        struct UnknownError {
+            #[allow(dead_code)]
+            error: serde::de::IgnoredAny,
         }
 
         match self
@@ -93,6 +102,9 @@ impl<Read: ReadHalf> ReadConnection<Read> {
             // Varlink service interface error need to be returned as the top-level error.
             ReplyMsg::Varlink(e) => Err(crate::Error::VarlinkService(e)),
             ReplyMsg::Error(e) => Ok(Err(e)),
+            ReplyMsg::UnknownError(_) => Err(crate::Error::Json(serde::de::Error::custom(
+                "reply carries an error that could not be decoded",
+            ))),
             ReplyMsg::Reply(reply) => {
                 // It's a success response.
                 Ok(Ok(reply))
